@@ -80,7 +80,12 @@ namespace nmtools::index
                 auto spatial_i = at(spatial_dim,i);
                 auto r_shape_i = float(at(shape,spatial_i) + pad - ((at(kernel_size,spatial_i) - 1) * dilations + 1)) / at(stride,spatial_i) + 1;
                 if (static_cast<bool>(ceil_mode)) {
-                    at(res,spatial_i) = math::constexpr_ceil(r_shape_i);
+                    auto out_i = math::constexpr_ceil(r_shape_i);
+                    // the last window must start inside the input (PyTorch rule), otherwise drop it
+                    if ((out_i - 1) * at(stride,spatial_i) >= at(shape,spatial_i) + pad) {
+                        out_i = out_i - 1;
+                    }
+                    at(res,spatial_i) = out_i;
                 } else {
                     at(res,spatial_i) = math::constexpr_floor(r_shape_i);
                 }
